@@ -44,9 +44,11 @@ def extract(ctx):
     from common import LEAN, REPO, VERIF
 
     _sys.path.insert(0, str(VERIF / "extract"))
+    import encoder_fields
     import handler_consts
 
     handler_consts.write(REPO, LEAN)
+    encoder_fields.write(REPO, LEAN)  # member names of the state file (whole-life histories restart through it)
 TRUSTED = [
     "Lean 4.33 kernel; axioms propext, Classical.choice, Quot.sound only (audited by #print axioms)",
     "hand-written model lean/HapModel/PairState.lean of State.add/remove/is_admin and handle_pairings "
@@ -65,7 +67,13 @@ TRUSTED = [
     "executor task would (scheduling / coalescing of saves is C15's concern); 'a save happened' is observed on disk (the file "
     "was replaced); fault = the state file's directory does not exist while one request is handled; start states and restarts: "
     "harness-authored state files in the historical format resp. the file the implementation wrote, loaded by the real driver "
-    "(what a save + load preserves is C14's statement: the model is compared piecewise from the observed loaded state)",
+    "(what a save + load preserves is C14's statement: in the request stream the model is compared piecewise from the observed loaded state)",
+    "whole-life stream (model: hstep / hrun of lean/HapModel/PairStateHist.lean): real sessions + AccessoryDriver.config_changed + the "
+    "database-hash update of async_start + restarts (fresh driver + accessory load the state file the implementation wrote); here the MODEL "
+    "predicts the state after the restart (loadJ (persistJ acc), member names regenerated into lean/HapModel/Gen/EncoderFields.lean by "
+    "probing persist / load_into, extract/encoder_fields.py); update_advertisement is stubbed (C18); the C06 oracle abstains after a restart "
+    "that did not preserve the pairings (C14's statement), the model comparison does not; response.pairing_removed is compared as an observable "
+    "(model: pairingRemoved), what the protocol layer does with it is C16",
 ]
 
 _LOOP = None
@@ -125,6 +133,8 @@ class Real:
                 real.persist_errors.append(type(ex).__name__)
 
         self.persist_errors: List[str] = []
+        self.last_pairing_removed = False
+        self.driver.update_advertisement = lambda: None  # config_changed(): the mDNS side is C18's concern
 
         self.driver.async_persist = sync_persist
         self.state = self.driver.state
@@ -205,6 +215,7 @@ class Real:
             req = h11.Request(method="POST", target=path, headers=[("Host", "hap"), ("Content-Length", str(len(body)))])
             r = h.dispatch(req, body)
             post.pairing_changed = bool(r.pairing_changed)
+            post.pairing_removed = bool(getattr(r, "pairing_removed", False))
             return r.status_code, bytes(r.body)
 
         return post, h
@@ -220,6 +231,7 @@ class Real:
             method="POST", target="/pairings", headers=[("Host", "hap"), ("Content-Length", str(len(body)))]
         )
         r = h.dispatch(req, body)
+        self.last_pairing_removed = bool(getattr(r, "pairing_removed", False))
         return r.status_code, bytes(r.body), bool(r.pairing_changed)
 
 
@@ -364,13 +376,15 @@ def run_real(ops: List[Dict[str, Any]], judge: bool = True, start: Optional[Dict
                     except Exception:  # noqa: BLE001  (dispatch would answer 500)
                         code, body, pc = 500, b"", False
                     resp = {"code": code}
+                    pr = False
                 else:
                     cu = int(op["cu"]) if op["cu"] is not None else None
                     code, body, pc = real.request(op["enc"], cu, bytes.fromhex(op["body"]))
                     resp = {"code": 200, "body": hx(body), "pc": pc} if code == 200 else {"code": code}
+                    pr = real.last_pairing_removed  # response.pairing_removed: the protocol layer's cue to drop unpaired sessions
             after = real.snapshot()
             wrote = real.file_sig() != sig0  # observed on disk, however the implementation got there
-            step = {"resp": resp, "state": after, "wrote": wrote, "doc": real.file_doc() if wrote else None}
+            step = {"resp": resp, "state": after, "wrote": wrote, "doc": real.file_doc() if wrote else None, "pr": pr}
             if op.get("fault"):  # whether / what got written while the disk fails is C15's concern
                 step.pop("wrote"), step.pop("doc")
             steps.append(step)
@@ -824,8 +838,17 @@ def registered_mismatch(snap, ref: refp.RefPairings) -> Optional[str]:
     return None
 
 
-def run_real_sessions(ops: List[Dict[str, Any]], judge: bool = True, start: Optional[Dict[str, Any]] = None):
+def full_state(real: "Real") -> Dict[str, Any]:
+    d = real.ident()
+    d.update(real.snapshot())
+    return d
+
+
+def run_real_sessions(ops: List[Dict[str, Any]], judge: bool = True, start: Optional[Dict[str, Any]] = None, on_restart=None):
     """Run one session history on the real code. `start` as in run_real (controllers own real key pairs).
+    Whole-life operations: "config" (AccessoryDriver.config_changed), "hash" (what async_start does with the
+    database hash), "restart" (a fresh driver + accessory load the state file; every connection is gone).
+    `on_restart(i, state before, state after | None)`: hook for the C14 oracle.
     Returns (ident, steps, verdict, abstained, init snapshot | None)."""
     init = None
     ref: Optional[refp.RefPairings] = refp.RefPairings()
@@ -865,6 +888,43 @@ def run_real_sessions(ops: List[Dict[str, Any]], judge: bool = True, start: Opti
         for i, op in enumerate(ops):
             before = real.snapshot()
             sig0 = real.file_sig()
+            if op["k"] in ("config", "hash"):
+                err = None
+                try:
+                    if op["k"] == "config":
+                        real.driver.config_changed()  # increment_config_version + persist (+ advertisement: C18)
+                    elif real.state.set_accessories_hash(op["h"]):  # AccessoryDriver.async_start
+                        real.driver.async_persist()
+                except Exception as ex:  # noqa: BLE001  (what the implementation did is an observation, never a harness error)
+                    err = type(ex).__name__
+                wrote = real.file_sig() != sig0
+                step = {"acc": full_state(real), "wrote": wrote, "doc": real.file_doc() if wrote else None}
+                if err:
+                    step["raised"] = err
+                steps.append(step)
+                continue
+            if op["k"] == "restart":
+                memory = full_state(real)
+                try:
+                    nxt = Real(with_accessory=True, state_file_from=real.path)  # add_accessory loads the file
+                except Exception as ex:  # noqa: BLE001  (what a save + load preserves is C14's statement: stop here)
+                    steps.append({"restarted": False, "error": type(ex).__name__})
+                    if on_restart:
+                        on_restart(i, memory, None)
+                    ref = None
+                    break
+                real.close()
+                real = nxt
+                conns.clear()
+                proved.clear()
+                acc_id, acc_ltpk = real.state.mac.encode(), bytes.fromhex(real.ident()["public_key"])
+                loaded = full_state(real)
+                steps.append({"restarted": True, "acc": loaded})
+                if on_restart:
+                    on_restart(i, memory, loaded)
+                if ref is not None and (pairing_set(real.snapshot()) != ref.pairing_set() or registered_mismatch(real.snapshot(), ref)):
+                    ref = None  # C14's statement; only the model comparison goes on
+                continue
             if op["k"] == "setup":
                 key = ctrl_pub(op["seed"])
                 try:
@@ -907,7 +967,8 @@ def run_real_sessions(ops: List[Dict[str, Any]], judge: bool = True, start: Opti
                 after = real.snapshot()
                 wrote = real.file_sig() != sig0
                 resp = {"code": 200, "body": hx(body), "pc": post.pairing_changed} if code == 200 else {"code": code}
-                steps.append({"resp": resp, "state": after, "wrote": wrote, "doc": real.file_doc() if wrote else None, "sess": sess(h)})
+                steps.append({"resp": resp, "state": after, "wrote": wrote, "doc": real.file_doc() if wrote else None, "sess": sess(h),
+                              "pr": post.pairing_removed})
                 if judge and ref is not None and v.sig is None:
                     who = proved.get(op["c"])
                     synth = {"k": "req", "enc": who is not None, "cu": str(who) if who is not None else None, "body": op["body"]}
@@ -939,6 +1000,8 @@ def sessions_model_line(ops, ident, init=None):
                          "signer": hx(ctrl_pub(op["seed"])) if op["proof"] == "sign" else None})
             if op["id"] is not None:
                 note(bytes.fromhex(op["id"]))
+        elif op["k"] in ("config", "hash", "restart"):
+            mops.append(op)
         else:
             mops.append(op)
             it = lenient_items(bytes.fromhex(op["body"]))
@@ -1068,6 +1131,54 @@ def random_session_script(ctx: Ctx):
     return ops
 
 
+def life_config():
+    return {"k": "config"}
+
+
+def life_hash(h):
+    return {"k": "hash", "h": h}
+
+
+LIFE_RESTART = {"k": "restart"}
+
+
+def whole_life_scripts(ctx: Ctx):
+    """Whole-life histories (model: `hstep` / `hrun`): pairing administration on real sessions interleaved with
+    configuration-number increments (incl. the wrap at 65535), database-hash updates and RESTARTS — after a
+    restart every connection is gone, the pairings, permissions, identifier bytes and identity are what they were,
+    and controllers verify and list again. Returns [(ops, start)]."""
+    rng = ctx.rng
+    out = []
+    for how in range(N_SPELL):
+        A, B = _ctrl(rng, how), _ctrl(rng, (how + 5) % N_SPELL)
+        addB = s_req(0, add_body(B["id"], ctrl_pub(hx(B["seed"])), bytes([how % 4])))
+        out.append(([s_setup(A["id"], A["seed"]), s_verify(0, A["id"], A["seed"]), addB, dict(LIFE_RESTART),
+                     s_req(0, LIST_BODY),  # the old connection number is a NEW connection now: nobody proved anything on it
+                     s_verify(1, respelled(rng, B, how), B["seed"]), s_verify(0, A["id"], A["seed"]), s_req(0, LIST_BODY), s_req(1, LIST_BODY),
+                     life_config(), life_hash("ab" * 16), life_hash("ab" * 16), s_req(0, remove_body(B["id"])), dict(LIFE_RESTART),
+                     s_verify(2, B["id"], B["seed"]), s_verify(3, A["id"], A["seed"]), s_req(3, LIST_BODY)], None))
+    A, B = _ctrl(rng, 1), _ctrl(rng, 0)
+    # last admin removed, restart: nothing is paired, stale identifier bytes stay inert
+    out.append(([s_setup(A["id"], A["seed"]), s_verify(0, A["id"], A["seed"]), s_req(0, add_body(B["id"], ctrl_pub(hx(B["seed"])), b"\x00")),
+                 s_req(0, remove_body(A["id"])), dict(LIFE_RESTART), s_verify(0, B["id"], B["seed"]), s_verify(1, A["id"], A["seed"]),
+                 s_setup(B["id"], B["seed"]), s_verify(1, B["id"], B["seed"]), s_req(1, LIST_BODY)], None))
+    # legacy starts: restart again after the back-fill; configuration number at the edge
+    for absent in (["client_uuid_to_bytes"], ["client_properties", "client_uuid_to_bytes"], ["client_properties"]):
+        start = session_start(rng, [A, B], [1, 0], absent)
+        start["state"]["config_version"] = 65534
+        out.append(([s_verify(0, respelled(rng, B), B["seed"]), dict(LIFE_RESTART), s_verify(1, A["id"], A["seed"]), s_req(1, LIST_BODY), life_config(),
+                     dict(LIFE_RESTART), life_config(), life_hash(None), life_hash("cd" * 32), dict(LIFE_RESTART), s_verify(0, A["id"], A["seed"]), s_req(0, LIST_BODY)], start))
+    for _ in range(ctx.n(60, 1200)):
+        ops = random_session_script(ctx)
+        k = rng.randrange(1, 4)
+        for _ in range(k):
+            pos = rng.randrange(2, len(ops) + 1)
+            extra = rng.choice([dict(LIFE_RESTART), dict(LIFE_RESTART), life_config(), life_hash(rng.choice([None, "", "ab" * 32, hx(key_of(rng))]))])
+            ops.insert(pos, extra)
+        out.append((ops, None))
+    return out
+
+
 def record_session_failure(ctx: Ctx, ops, v: Verdict, start=None):
     cut = ops[: v.at + 1]
 
@@ -1087,20 +1198,62 @@ def record_session_failure(ctx: Ctx, ops, v: Verdict, start=None):
              + (f", after a restart from a state file without {start['absent'] or 'no member'}" if start else "") + "]", payload)
 
 
+def compare_sessions(ctx: Ctx, driver: str, scripts, lines, impl):
+    """Differential tie of session / whole-life histories: model (`hstep`) vs observed steps."""
+    st = ctx.stats
+    model = run_model_parallel(driver, lines)
+    for ops, m, steps in zip(scripts, model, impl):
+        st.traces_validated += 1
+        if "steps" not in m:
+            ctx.disagree("sessions", {"ops": ops[:6]}, m, None)
+            continue
+        ms = []
+        for op, x in zip(ops, m["steps"]):
+            x = dict(x)
+            if op["k"] == "setup":
+                x["resp"] = {"code": x["resp"]["code"]}
+            ms.append(x)
+        if ms != steps:
+            j = next((k for k, (a, b) in enumerate(zip(ms, steps)) if a != b), min(len(ms), len(steps)))
+            a, b = (ms[j] if j < len(ms) else {}), (steps[j] if j < len(steps) else {})
+            field = next((f for f in ("raised", "verified", "sess", "resp", "state", "wrote", "doc", "pr", "restarted", "acc") if a.get(f) != b.get(f)), "?")
+            if field == "acc" and isinstance(a.get("acc"), dict) and isinstance(b.get("acc"), dict):
+                sub = next((f for f in b["acc"] if a["acc"].get(f) != b["acc"].get(f)), "?")
+                field, a, b = "acc/" + sub, {"acc/" + sub: a["acc"].get(sub)}, {"acc/" + sub: b["acc"].get(sub)}
+            if field == "state" and isinstance(a.get("state"), dict) and isinstance(b.get("state"), dict):
+                field = "state/" + next((f for f in ("paired", "props", "u2b") if a["state"].get(f) != b["state"].get(f)), "?")
+                a, b = {field: a["state"]}, {field: b["state"]}
+            ctx.disagree(f"sessions/{field}", {"ops": ops[: j + 1], "step": j}, a.get(field), b.get(field))
+    return model
+
+
 def run_sessions(ctx: Ctx):
     st = ctx.stats
     cases = [(o, None) for o in session_boundary_scripts(ctx)] + spelling_session_scripts(ctx)
     nb = len(cases)
     for _ in range(ctx.n(160, 3000)):
         cases.append((random_session_script(ctx), None))
-    scripts = [o for o, _ in cases]
-    st.notes.append(f"session stream: {nb} deterministic + {len(scripts) - nb} random histories with real pair-verify exchanges "
+    life = whole_life_scripts(ctx)
+    cases += life
+    st.notes.append(f"whole-life stream: {len(life)} histories over the full alphabet of the model's `hstep` (real sessions + configuration-number "
+                    "increments + hash updates + restarts through the real state file); after a restart the model predicts the loaded state itself")
+    st.notes.append(f"session stream: {nb} deterministic + {len(cases) - nb - len(life)} random histories with real pair-verify exchanges "
                     "(honest ones spelling the identifier as registered or in another of the 10 families, dishonest ones on fresh and on "
                     "already verified connections, some after a restart from a file without recorded identifier bytes); pairing data "
                     "incl. recorded identifier bytes judged after EVERY step")
     lines, impl = [], []
+    ran = []
     for ops, start in cases:
-        ident, steps, v, abstained, init = run_real_sessions(ops, start=start)
+        try:
+            ident, steps, v, abstained, init = run_real_sessions(ops, start=start)
+        except Exception as ex:  # noqa: BLE001  an exception escaped the implementation where the model predicts none
+            import traceback
+
+            st.hit("outcome", f"exception-observed/sessions/{type(ex).__name__}")
+            ctx.disagree("exception/sessions", {"ops": [o["k"] for o in ops]}, "no exception",
+                         "".join(traceback.format_exception(type(ex), ex, ex.__traceback__))[-700:])
+            continue
+        ran.append(ops)
         lines.append(sessions_model_line(ops, ident, init))
         impl.append(steps)
         if v.sig is not None:
@@ -1122,32 +1275,23 @@ def run_sessions(ctx: Ctx):
                 st.hit("op", "session-" + {3: "add", 4: "remove", 5: "list"}.get(it[0][0] if it.get(0) else None, "malformed"))
                 st.hit("outcome", f"session-request/{'verified' if s_['sess']['enc'] else 'unverified'}-connection/{outc}")
                 tr.append(["r", op["c"], it[0][0] if it.get(0) else None, outc, len(s_["state"]["paired"])])
+            elif op["k"] in ("config", "hash"):
+                st.hit("op", "life-" + op["k"])
+                st.hit("outcome", f"life-{op['k']}/" + ("saved" if s_.get("wrote") else "unchanged"))
+                tr.append([op["k"], s_.get("wrote"), s_["acc"]["config_version"] if "acc" in s_ else None])
+            elif op["k"] == "restart":
+                st.hit("op", "life-restart")
+                st.hit("outcome", "life-restart/" + ("loaded" if s_.get("restarted") else "load-failed"))
+                tr.append(["restart", s_.get("restarted"), len(s_.get("acc", {}).get("paired", []))])
             else:
                 tr.append(["s", s_["resp"]["code"]])
         st.case(["sessions", tr], True)
-    model = run_model_parallel("C06", lines)
-    for ops, m, steps in zip(scripts, model, impl):
-        st.traces_validated += 1
-        if "steps" not in m:
-            ctx.disagree("sessions", {"ops": ops[:6]}, m, None)
-            continue
-        ms = []
-        for op, x in zip(ops, m["steps"]):
-            x = dict(x)
-            if op["k"] == "setup":
-                x["resp"] = {"code": x["resp"]["code"]}
-            ms.append(x)
-        if ms != steps:
-            j = next((k for k, (a, b) in enumerate(zip(ms, steps)) if a != b), min(len(ms), len(steps)))
-            a, b = (ms[j] if j < len(ms) else {}), (steps[j] if j < len(steps) else {})
-            field = next((f for f in ("verified", "sess", "resp", "state", "wrote", "doc") if a.get(f) != b.get(f)), "?")
-            if field == "state" and isinstance(a.get("state"), dict) and isinstance(b.get("state"), dict):
-                field = "state/" + next((f for f in ("paired", "props", "u2b") if a["state"].get(f) != b["state"].get(f)), "?")
-                a, b = {field: a["state"]}, {field: b["state"]}
-            ctx.disagree(f"sessions/{field}", {"ops": ops[: j + 1], "step": j}, a.get(field), b.get(field))
-    st.sample({"session_ops": [{k: (v_[:24] + "..." if isinstance(v_, str) and len(v_) > 24 else v_) for k, v_ in o.items()} for o in scripts[0][4:7]],
-               "impl_steps": [{k: v_ for k, v_ in s_.items() if k in ("verified", "sess", "resp")} for s_ in impl[0][4:7]],
-               "model_agrees": "steps" in model[0]})
+    scripts = ran
+    model = compare_sessions(ctx, "C06", scripts, lines, impl)
+    if scripts:
+        st.sample({"session_ops": [{k: (v_[:24] + "..." if isinstance(v_, str) and len(v_) > 24 else v_) for k, v_ in o.items()} for o in scripts[0][4:7]],
+                   "impl_steps": [{k: v_ for k, v_ in s_.items() if k in ("verified", "sess", "resp")} for s_ in impl[0][4:7]],
+                   "model_agrees": "steps" in model[0]})
 
 
 # ----------------------------------------------------------------------------- entry points
@@ -1292,7 +1436,7 @@ def run(ctx: Ctx):
         ms = canon_model_steps(ops, m["steps"])
         if ms != steps:
             j = next((k for k, (a, b) in enumerate(zip(ms, steps)) if a != b), min(len(ms), len(steps)))
-            field = next((f for f in ("resp", "state", "wrote", "doc") if j < len(ms) and j < len(steps) and ms[j].get(f) != steps[j].get(f)), "?")
+            field = next((f for f in ("resp", "state", "wrote", "doc", "pr") if j < len(ms) and j < len(steps) and ms[j].get(f) != steps[j].get(f)), "?")
             ctx.disagree(f"pairstate/{field}", {"ops": ops[: j + 1], "step": j}, ms[j].get(field) if j < len(ms) else None, steps[j].get(field) if j < len(steps) else None)
     run_sessions(ctx)
     for k in (0, min(n_boundary, len(segs)) - 1, len(segs) - 1):
